@@ -9,7 +9,7 @@ from ..cfg import cfg_of, always_raises, handler_names, is_catch_all
 from ..pathcond import inline
 from ..astutil import arg_for, dotted, get_arg, derived, norm, enclosing, names_in, defs_of, assignments
 from ..srcmodel import own_nodes, AnalysisError
-from .C17 import find_committer, find_appenders
+from .C17 import find_committer, find_appenders, commit_delta
 from .C20 import fold
 
 EXPLANATION = (
@@ -256,7 +256,7 @@ def d2_accumulator(ctx, f, committer, appenders):
     accs = set()
     for n, cal in ctx.E.callees(f):
         if cal is committer and isinstance(n, ast.Call):
-            a = get_arg(n, 0, 'lenincrease')
+            a = commit_delta(ctx, committer, n, f)
             if isinstance(a, ast.Name):
                 accs.add(a.id)
     for acc in sorted(accs):
@@ -270,6 +270,14 @@ def d2_accumulator(ctx, f, committer, appenders):
             if isinstance(st, ast.AugAssign) and isinstance(st.op, ast.Add) and isinstance(val, ast.Call) and \
                     any(t in appenders for k, t in ctx.R.resolve_call(val, f) if k == 'repo'):
                 continue
+            # the length of the array that has just been written whole by path (first chunk of an empty array)
+            if isinstance(st, ast.Assign) and isinstance(val, ast.Subscript) and isinstance(val.slice, ast.Constant) and \
+                    val.slice.value == 0 and isinstance(val.value, ast.Attribute) and val.value.attr == 'shape' and \
+                    isinstance(val.value.value, ast.Name):
+                written = [e.node for e in ctx.E.primitives(f) if e.kind == 'WRITE-PATH' and isinstance(e.node, ast.Call) and
+                           isinstance(e.node.func, ast.Attribute) and dotted(e.node.func.value) == val.value.value.id]
+                if written and must_precede(f, st, written):
+                    continue
             ok = False
             why = f'`{norm(st)[:60]}`'
         ctx.decide(ok, 'R-FLOW', 'D2', f, None, f'accumulator::{acc}',
